@@ -355,7 +355,8 @@ def s5_valuation(ctx):
     ctx.require(len(nps) >= 1, 'C02.S5', 'update_current_price has an accepting path', ctx.fn('Position.update_current_price').site())
     # portfolio-level mark: every accepted mark of a held asset reaches the position with the given price
     qn = 'Portfolio.update_market_value_of_asset'
-    ps = summarise(ctx, qn, policy=default_policy)
+    # (the mark may be passed to the position through the portfolio's own handler)
+    ps = summarise(ctx, qn, policy=lambda a_, b_, d_: default_policy(a_, b_, d_) or (d_ <= 3 and b_.cls is not None and b_.cls.name == 'PositionHandler' and not b_.name.startswith('__')))
     for p in normal(ps):
         held = None
         for c, v, _ in p.conds:
@@ -370,8 +371,13 @@ def s5_valuation(ctx):
             continue
         ok = len(cs) == 1 and cs[0].args.get('market_price') == V('current_price') and \
             cs[0].d.get('recv') in (('sub', A(A('self', 'pos_handler'), 'positions'), V('asset')),)
+        from ..lib import read_marker
+        if not ok and not read_marker(ctx, p):
+            ctx.undecided('C02.S5', 'an accepted mark of a held asset updates that position with the given price [%s]' % cond_str(p), ctx.fn(qn).site(),
+                          'the path makes calls this rule does not follow; calls of update_current_price seen: %d' % len(cs))
+            continue
         ctx.require(ok, 'C02.S5', 'an accepted mark of a held asset updates that position with the given price [%s]' % cond_str(p),
-                    cs[0].site if cs else ctx.fn(qn).site(), 'calls: %s' % [str(e) for e in cs], key='C02.S5|mark')
+                    cs[0].site if cs else ctx.fn(qn).site(), 'READ: calls: %s' % [str(e) for e in cs], key='C02.S5|mark')
         extra = [fmt(c) for c, v, _ in p.conds if fmt(c) not in ('asset in self.pos_handler.positions', '0 <= current_price', 'current_price < 0',
                                                                    'self.current_dt <= current_dt', 'current_dt < self.current_dt')]
         ctx.require(not extra, 'C02.S5', 'a mark is dropped only for the documented refusals (negative price, earlier time) [%s]' % cond_str(p),
@@ -381,6 +387,9 @@ def s5_valuation(ctx):
     for p in normal(ps):
         if any(fmt(c) == 'asset in self.pos_handler.positions' and v for c, v, _ in p.conds):
             cs = [e for e in p.flat_events() if e.kind == 'call' and 'Position.update_current_price' in e.callee]
+            from ..lib import read_marker
+            if len(cs) != 1 and not read_marker(ctx, p):
+                continue        # (left open above)
             ctx.require(len(cs) == 1, 'C02.S5', 'no silent drop of a mark for a held asset [%s]' % cond_str(p), ctx.fn(qn).site(), key='C02.S5|mark-drop')
 
 
